@@ -13,7 +13,9 @@ META = {
              'queue()/clock moves and a seeded guard valuation; after every step the fired transition set, the consumed '
              'event and the event seen by every guard probe are compared with the documented selection rule '
              '(reference model).  Non-trivial = distinct (chart digest, step) pairs in which the rule really '
-             'discriminated: priority pre-emption, inner-first pruning, or eventless pre-emption happened.',
+             'discriminated: priority pre-emption, inner-first pruning, or eventless pre-emption happened.  Workload variants: plain '
+             'after()/idle() guards (mode timed), a guard text that is also the action text of another transition, charts reached '
+             'through a detour of edits, an earlier interpreter on the same Statechart object.',
         assumptions=COMMON_ASSUME,
         required=['steps_monitored', 'guard_probes', 'rule_priority_preempt', 'rule_inner_first_prune',
                   'rule_eventless_preempts_pending_event'],
@@ -60,7 +62,9 @@ META = {
         rule='Every queued/sent event carries a unique id; a two-queue model (due time, insertion order) predicts the '
              'event of every step; at the end the clock is moved past every due time and the queues are drained: every '
              'event consumed exactly once.  Non-trivial = distinct (chart, step) where an internal/external race, an '
-             'equal-due tie, a due-exactly-now boundary or a not-yet-due internal head occurred.',
+             'equal-due tie, a due-exactly-now boundary or a not-yet-due internal head occurred.  Variants: negative delays, the same '
+             'Event instance queued several times, queue(n1, n2, **params); 1 case in 12 is a threaded scenario (two threads '
+             'queue while a third executes, controlled scheduler with line-level yields).',
         assumptions=COMMON_ASSUME + ['negative delays are part of the workload (the due time is t+d also for d<0, as in the repository\'s own test_delay)', '1 case in 12 is a threaded scenario (queue() from two threads while a third calls execute_once) under the controlled scheduler of vf/sched.py'],
         required=['threaded_schedules', 'threaded_events_exactly_once', 'steps_monitored', 'events_consumed', 'c05_drained_runs', 'c05_internal_before_due_external',
                   'c05_equal_due_tie', 'c05_due_exactly_now', 'c05_external_while_internal_not_due'],
